@@ -570,7 +570,7 @@ fn seal_adv(n: usize) {
     kani::cover!(o.ok, "seal ok, exact dst");
     kani::cover!(!o.ok & (o.calls == 1), "seal err after AEAD call, dst wiped");
     kani::cover!(!o.ok & (o.calls == 0), "seal err: state failure or key expired");
-    let o = seal_case(e, n, n + OVERHEAD + 3);
+    let o = seal_case(e, n, n + OVERHEAD + 2);
     kani::cover!(o.ok, "seal ok, larger dst");
     kani::cover!(!o.ok & (o.calls == 1), "seal err after AEAD call, larger dst");
 }
